@@ -1,4 +1,7 @@
-/* C08 prototype: random operations with tick interrupts injected at lock/unlock callbacks; logs sub-step trace */
+/* C07/C08 direction code -> spec: PRNG driver of the real timer manager; tick interrupts are injected at
+ * COTmrLock entry, COTmrUnlock exit and inside action callbacks (at most 3 per task-level call: a bounded
+ * interrupt rate, otherwise cyclic timers with period 1 keep COTmrProcess busy for ever); every event is
+ * logged as one ndjson line with the scalar state (hw counter, list lengths) for CoTmrPreTrace.tla */
 #include "co_core.h"
 #include <stdio.h>
 #include <stdlib.h>
@@ -13,14 +16,15 @@ static CO_NODE node; static CO_TMR_MEM *tm; static int inject=0;
 static int len_t(CO_TMR_TIME*x){int n=0;while(x){n++;x=x->Next;}return n;}
 static unsigned long rs; static unsigned rnd(unsigned n){ rs=rs*6364136223846793005UL+1442695040888963407UL; return (unsigned)(rs>>33)%n; }
 static void proj(void){ printf(",\"hw\":%u,\"nu\":%d,\"ne\":%d,\"nf\":%d}\n",cnt,len_t(node.Tmr.Use),len_t(node.Tmr.Elapsed),len_t(node.Tmr.Free)); }
-static void isr(void){ while(inject && rnd(3)==0){ int r=COTmrService(&node.Tmr); printf("{\"e\":\"service\",\"a\":0,\"b\":0,\"ret\":%d",r); proj(); } }
+static int budget; static long lines;
+static void isr(void){ while(inject && budget>0 && rnd(3)==0){ budget--; if(++lines>2000000) exit(0); int r=COTmrService(&node.Tmr); printf("{\"e\":\"service\",\"a\":0,\"b\":0,\"ret\":%d",r); proj(); } }
 void COTmrLock(void){ isr(); }
 void COTmrUnlock(void){ if(inject){ printf("{\"e\":\"cs\",\"a\":0,\"b\":0,\"ret\":0"); proj(); } isr(); }
 static void cb(void*p){ printf("{\"e\":\"cb\",\"a\":%d,\"b\":0,\"ret\":0",(int)(intptr_t)p); proj(); isr(); }
 int main(int argc,char**argv){ int max=atoi(argv[1]); int nops=atoi(argv[2]); rs=atol(argv[3]);
  tm=malloc(sizeof(CO_TMR_MEM)*max); memset(&node,0,sizeof node); node.If.Drv=&drv; node.If.Node=&node; node.Nmt.Tmr=-1;
  COTmrInit(&node.Tmr,&node,tm,max,1000); inject=1;
- for(int i=0;i<nops;i++){ unsigned k=rnd(10); int ret=0; int a=0,b=0;
+ for(int i=0;i<nops;i++){ unsigned k=rnd(10); budget=3; int ret=0; int a=0,b=0;
   if(k<3){ a=rnd(4); b=rnd(3)?0:rnd(3); printf("{\"e\":\"call_create\",\"a\":%d,\"b\":%d,\"ret\":0",a,b); proj(); ret=COTmrCreate(&node.Tmr,a,b,cb,0); if(ret>=0) ((CO_TMR_MEM*)node.Tmr.APool)[ret].Act.Para=(void*)(intptr_t)ret; printf("{\"e\":\"ret_create\",\"a\":%d,\"b\":%d,\"ret\":%d",a,b,ret); proj(); }
   else if(k<5){ a=(int)rnd(max+2)-1; printf("{\"e\":\"call_delete\",\"a\":%d,\"b\":0,\"ret\":0",a); proj(); ret=COTmrDelete(&node.Tmr,a); printf("{\"e\":\"ret_delete\",\"a\":%d,\"b\":0,\"ret\":%d",a,ret); proj(); }
   else if(k<8){ ret=COTmrService(&node.Tmr); printf("{\"e\":\"service\",\"a\":0,\"b\":0,\"ret\":%d",ret); proj(); }
